@@ -172,9 +172,21 @@ Section Gen.
   Lemma add_xsi_g_none i : add_xsi_g None i = i.
   Proof. destruct i; [reflexivity|]. cbn [add_xsi_g xsi_attr_g]. rewrite app_nil_r. reflexivity. Qed.
 
+  (* convert_dataclass adds xsi:nil="true" after the attributes and xsi:type when the field or the class
+     is nillable (the writer drops it again when the element has content) *)
+  Definition cnil (o : value) : bool :=
+    match o with VObj k _ => cls_nillable u k | _ => false end.
+  Definition add_nil_g (b : bool) (i : bitem) : bitem :=
+    match i with
+    | BNode q ats ks => BNode q (ats ++ (if b then [(XSI_NIL, WP (PStr TRUE_STR))] else [])) ks
+    | BData v => BData v
+    end.
+  Lemma add_nil_g_false i : add_nil_g false i = i.
+  Proof. destruct i; [reflexivity|]. cbn [add_nil_g]. rewrite app_nil_r. reflexivity. Qed.
+
   Definition g_item (rec : option qname -> value -> bitem) (var : xvar) (x : value) : bitem :=
     match x with
-    | VObj k' _ => add_xsi_g (xsi_for var k') (rec (Some (v_qname var)) x)
+    | VObj k' _ => add_nil_g (v_nillable var || cnil x) (add_xsi_g (xsi_for var k') (rec (Some (v_qname var)) x))
     | _ => g_prim var x
     end.
   Definition g_wrap (var : xvar) (items : list bitem) : list bitem :=
@@ -250,7 +262,7 @@ Section Gen.
                                               | Some w => match assoc w (m_wrappers m) with Some _ => true | None => false end
                                               | None => true
                                               end) (snd e)) (m_elements m) = true;
-    cf_nillable : m_nillable m = false;
+    cf_nillable : True;
     cf_mixed : m_mixed_content m = false;
     cf_elements : forallb (fun e => match snd e with [v] => str_eqb (v_qname v) (fst e) && wf_elem v | _ => false end) (m_elements m) = true;
     cf_elements_distinct : NoDup (map fst (m_elements m));
@@ -266,14 +278,14 @@ Section Gen.
   Lemma wf_class_inv m : wf_class m = true -> class_facts m.
   Proof.
     unfold wf_class. intros H. peel H H14.
-    peel H H13. peel H H12. peel H H11. peel H H10. peel H H9. peel H H8. peel H H7. peel H H6. peel H H5.
+    peel H H13. peel H H12. peel H H11. peel H H10. peel H H9. peel H H8. peel H H7. peel H H6.
     peel H H4. peel H H3. peel H H2.
     constructor.
     - destruct (m_choices m); [reflexivity|discriminate].
     - destruct (m_wildcards m); [reflexivity|discriminate].
     - destruct (m_any_attributes m); [reflexivity|discriminate].
     - exact H4.
-    - apply negb_true_iff. exact H5.
+    - exact I.
     - apply negb_true_iff. exact H6.
     - exact H7.
     - apply nodup_by_str. exact H8.
@@ -361,12 +373,21 @@ Section Gen.
   Proof.
     cbn [Fits.fits]. destruct o; try discriminate. intros H.
     apply andb_true_iff in H as [Hc H]. apply N.eqb_eq in Hc. subst c0.
-    destruct (u_meta u cl) as [m|]; [|discriminate]. peel H H2. peel H H1. peel H H0.
+    destruct (u_meta u cl) as [m|]; [|discriminate]. peel H H2. peel H H1. peel H H0. peel H Hcont.
     exists fields, m. repeat split.
     - apply (list_eqb_spec str_eqb str_eqb_eq). exact H.
     - intros e He. rewrite forallb_forall in H0. apply H0. exact He.
     - intros e v He Hv. rewrite forallb_forall in H1. specialize (H1 _ He). rewrite forallb_forall in H1. apply H1. exact Hv.
     - destruct (m_text m); [exact H2|exact I].
+  Qed.
+
+  (* an instance of a nillable class has content *)
+  Lemma fits_content n cl o : fits n cl o = true -> cnil o = true -> has_content u o = true.
+  Proof.
+    destruct n; [discriminate|]. cbn [Fits.fits]. destruct o; try discriminate. intros H.
+    apply andb_true_iff in H as [Hc H]. apply N.eqb_eq in Hc. subst c0. cbn [cnil]. unfold cls_nillable.
+    destruct (u_meta u cl) as [m|] eqn:Em; [|discriminate]. peel H H2. peel H H1. peel H H0. peel H Hcont.
+    intros Hn. rewrite Hn in Hcont. exact Hcont.
   Qed.
 
   Lemma getattr_field cl fs m var :
@@ -720,26 +741,26 @@ Section Gen.
   Proof. reflexivity. Qed.
 
   Lemma run_xsitype_exact f var cl fs :
-    kind_elem var -> v_types var = [TClass cl] -> v_nillable var = false ->
+    kind_elem var -> v_types var = [TClass cl] ->
     run c u ign (S f) (CXsiType (VObj cl fs) var)
-    = run c u ign f (CDataclass (VObj cl fs) (Some (v_qname var)) false None).
+    = run c u ign f (CDataclass (VObj cl fs) (Some (v_qname var)) (v_nillable var) None).
   Proof.
-    intros [Hk [Ht [Hes Hw]]] Hty Hn. cbn [run]. rewrite Hw, Hk.
+    intros [Hk [Ht [Hes Hw]]] Hty. cbn [run]. rewrite Hw, Hk.
     unfold xsi_type_of. rewrite Hty. cbn [existsb ptype_eqb]. rewrite N.eqb_refl. cbn [orb gbind].
-    rewrite Hn. reflexivity.
+    reflexivity.
   Qed.
 
   Lemma run_xsitype_derived f var kd k fs :
-    kind_elem var -> v_types var = [TClass kd] -> v_clazz var = Some kd -> v_nillable var = false ->
+    kind_elem var -> v_types var = [TClass kd] -> v_clazz var = Some kd ->
     k <> kd -> is_subclass u k kd = true -> u_meta u k <> None ->
     run c u ign (S f) (CXsiType (VObj k fs) var)
-    = run c u ign f (CDataclass (VObj k fs) (Some (v_qname var)) false (xsi_for var k)).
+    = run c u ign f (CDataclass (VObj k fs) (Some (v_qname var)) (v_nillable var) (xsi_for var k)).
   Proof.
-    intros [Hk [Ht [Hes Hw]]] Hty Hcl Hn Hne Hs Hmk. cbn [run]. rewrite Hw, Hk.
+    intros [Hk [Ht [Hes Hw]]] Hty Hcl Hne Hs Hmk. cbn [run]. rewrite Hw, Hk.
     unfold xsi_type_of, xsi_for. rewrite Hty, Hcl. cbn [existsb ptype_eqb].
     destruct (N.eqb_spec k kd) as [E|_]; [contradiction|]. cbn [orb].
     unfold is_derived. rewrite Hs. cbn [orb].
-    destruct (u_meta u k) as [mk|]; [|congruence]. cbn [gbind]. rewrite Hn. reflexivity.
+    destruct (u_meta u k) as [mk|]; [|congruence]. cbn [gbind]. reflexivity.
   Qed.
 
   Lemma wf_elem_inv var : wf_elem var = true ->
@@ -758,49 +779,34 @@ Section Gen.
     destruct t as [| | | | | | | | | | | | |e|k]; try (right; left; apply (Hsimple _ eq_refl H1)); try discriminate H1.
     - right. right. peel H1 H3. peel H1 H2. peel H1 H4. split; [reflexivity|].
       destruct (v_clazz var); [discriminate|]. destruct (v_tokens_factory var); [discriminate|]. split; reflexivity.
-    - left. exists k. peel H1 H3. peel H1 H2. peel H1 H4. split; [reflexivity|].
-      destruct (v_clazz var) as [k'|]; cbn in H4; [|discriminate]. apply N.eqb_eq in H4. subst k'.
+    - left. exists k. peel H1 H3. peel H1 H2. split; [reflexivity|].
+      destruct (v_clazz var) as [k'|]; cbn in H1; [|discriminate]. apply N.eqb_eq in H1. subst k'.
       destruct (v_tokens_factory var); [discriminate|]. split; reflexivity.
   Qed.
 
-  (* where nillable is allowed: fields of a simple type, no tokens, no value default *)
+  (* where nillable is allowed: fields of a simple type (no tokens, no value default) or of a class type *)
   Lemma wf_elem_nil var : wf_elem var = true -> v_nillable var = true ->
-    exists t, v_types var = [t] /\ simple_type t = true /\ v_clazz var = None /\ v_tokens_factory var = None.
+    (exists t, v_types var = [t] /\ simple_type t = true /\ v_clazz var = None /\ v_tokens_factory var = None)
+    \/ (exists k, v_types var = [TClass k] /\ v_clazz var = Some k /\ v_tokens_factory var = None).
   Proof.
-    unfold wf_elem. intros H Hn. peel H H1. rewrite Hn in H1.
-    unfold var_type in H1. destruct (v_types var) as [|t [|? ?]]; try discriminate.
-    assert (Hsimple : simple_type t && match v_clazz var with None => true | Some _ => false end
-              && match v_factory var, v_tokens_factory var with
-                 | None, None => match v_default var with
-                                 | DNone => true
-                                 | DValue (VP _) => negb true
-                                 | _ => false
-                                 end
-                 | Some f, None => factory_default f (v_default var)
-                 | Some f, Some _ => negb true && factory_default f (v_default var)
-                 | None, Some f => negb true && factory_default f (v_default var)
-                 end = true ->
-              exists t0, [t] = [t0] /\ simple_type t0 = true /\ v_clazz var = None /\ v_tokens_factory var = None).
-    { intros Hx. peel Hx Hx2. peel Hx Hx1. exists t. split; [reflexivity|]. split; [exact Hx|].
-      destruct (v_clazz var); [discriminate|]. split; [reflexivity|].
-      destruct (v_factory var), (v_tokens_factory var); try discriminate Hx2; reflexivity. }
-    destruct t as [| | | | | | | | | | | | |e|k]; try (apply Hsimple; exact H1); discriminate H1.
+    intros H Hn. destruct (wf_elem_inv var H) as [_ [_ [[k Hk]|[Hs|[Hq _]]]]]; [right; exists k; exact Hk| |].
+    - left. destruct Hs as [t [Ht [Hst Hcl]]]. exists t. split; [exact Ht|]. split; [exact Hst|]. split; [exact Hcl|].
+      unfold wf_elem in H. peel H H1. rewrite Hn in H1. unfold var_type in H1. rewrite Ht in H1.
+      rewrite Hcl in H1.
+      destruct t as [| | | | | | | | | | | | |e|k]; try discriminate Hst;
+        (peel H1 H2; destruct (v_factory var), (v_tokens_factory var); try discriminate H2; reflexivity).
+    - exfalso. unfold wf_elem in H. peel H H1. rewrite Hn in H1. unfold var_type in H1. rewrite Hq in H1. discriminate H1.
   Qed.
 
-  Lemma wf_elem_nonil_class var k : wf_elem var = true -> v_types var = [TClass k] -> v_nillable var = false.
-  Proof.
-    intros Hw Ht. destruct (v_nillable var) eqn:En; [|reflexivity].
-    destruct (wf_elem_nil var Hw En) as [t [Ht' [Hs _]]]. rewrite Ht in Ht'. inversion Ht'; subst t. discriminate Hs.
-  Qed.
   Lemma wf_elem_nonil_qname var : wf_elem var = true -> v_types var = [TQName] -> v_nillable var = false.
   Proof.
     intros Hw Ht. destruct (v_nillable var) eqn:En; [|reflexivity].
-    destruct (wf_elem_nil var Hw En) as [t [Ht' [Hs _]]]. rewrite Ht in Ht'. inversion Ht'; subst t. discriminate Hs.
+    destruct (wf_elem_nil var Hw En) as [[t [Ht' [Hs _]]]|[k [Ht' _]]]; rewrite Ht in Ht'; inversion Ht'; subst t. discriminate Hs.
   Qed.
   Lemma wf_elem_nonil_tokens var tf : wf_elem var = true -> v_tokens_factory var = Some tf -> v_nillable var = false.
   Proof.
     intros Hw Ht. destruct (v_nillable var) eqn:En; [|reflexivity].
-    destruct (wf_elem_nil var Hw En) as [t [_ [_ [_ Htf]]]]. congruence.
+    destruct (wf_elem_nil var Hw En) as [[t [_ [_ [_ Htf]]]]|[k [_ [_ Htf]]]]; congruence.
   Qed.
 
   Lemma wf_elem_qname var : wf_elem var = true -> v_qname var <> [].
@@ -898,8 +904,17 @@ Section Gen.
   Proof.
     intros Ht H. unfold Fits.fits_item, vtype in H. rewrite Ht in H.
     destruct x as [| | |cl' fs'| | |]; try discriminate H. exists cl', fs'. split; [reflexivity|].
+    apply andb_true_iff in H as [_ H].
     destruct (N.eqb_spec cl' k) as [->|Hne]; [left; split; [reflexivity|exact H]|].
     right. apply andb_true_iff in H. exact H.
+  Qed.
+  (* an instance in a nillable field has content *)
+  Lemma fits_item_content rec var k x :
+    v_types var = [TClass k] -> fits_item rec var x = true -> v_nillable var = true -> has_content u x = true.
+  Proof.
+    intros Ht H Hn. unfold Fits.fits_item, vtype in H. rewrite Ht in H.
+    destruct x as [| | |cl' fs'| | |]; try discriminate H.
+    apply andb_true_iff in H as [H _]. rewrite Hn in H. exact H.
   Qed.
 
   (* what derived_ok says *)
@@ -1389,24 +1404,21 @@ Section Gen.
   Lemma run_obj : forall n cl o qn xsi,
     wfr cl -> fits n cl o = true ->
     forall fuel, (5 * odepth o <= fuel)%nat ->
-    run c u ign fuel (CDataclass o qn false xsi) = Ok (bflat (add_xsi_g xsi (gobj n qn o))).
+    forall nl, run c u ign fuel (CDataclass o qn nl xsi) = Ok (bflat (add_nil_g (nl || cnil o) (add_xsi_g xsi (gobj n qn o)))).
   Proof.
-    induction n as [|n IH]; intros cl o qn xsi Hwf Hfit fuel Hfuel; [discriminate|].
+    induction n as [|n IH]; intros cl o qn xsi Hwf Hfit fuel Hfuel nl; [discriminate|].
     destruct (fits_inv n cl o Hfit) as [fs [m [-> [Hm [Hnames [Hfa [Hfe Hft]]]]]]].
     destruct (wfr_inv cl Hwf) as [m' [Hm' [Hmc [Hwc Hnest]]]]. rewrite Hm in Hm'. inversion Hm'; subst m'. clear Hm'.
     assert (Hd : (1 <= odepth (VObj cl fs))%nat) by (cbn [odepth]; lia).
     destruct fuel as [|f]; [lia|].
-    cbn [run gobj]. rewrite Hm.
-    assert (Hnil : m_nillable m = false).
-    { destruct (wf_class_inv m Hwc). assumption. }
-    rewrite Hnil. cbn [orb].
+    cbn [run gobj cnil]. unfold cls_nillable. rewrite Hm.
     (* attributes *)
     unfold next_attribute.
     rewrite (concatM_flat _ (fun var => map (fun a => WAttr (fst a) (snd a)) (g_attr var (field_of fs var)))).
     2:{ intros var Hin. destruct (wf_class_avar m var Hwc Hin) as [Hwa Hina].
         apply (attr_step_ok cl fs m var Hnames (in_allvars m var Hwc (or_introl Hin)) Hwa).
         apply (Hfa _ Hina). }
-    cbn [gbind]. rewrite !app_nil_r.
+    cbn [gbind].
     (* the field values *)
     pose proof (class_pairs_fits _ cl fs m Hwc Hnames Hfe) as Hps.
     rewrite (ps_eq _ _ _ _ Hps).
@@ -1424,7 +1436,8 @@ Section Gen.
               [|rewrite (wf_text_nonil var Hwt) in Hnl; discriminate Hnl].
             destruct (wf_elem_inv var Hwe) as [Hk [Hc _]].
             destruct (var_common_inv var Hc) as [_ [Hmx [Hany _]]].
-            destruct (wf_elem_nil var Hwe Hnl) as [t [Htys [Hst [Hcl Htf]]]].
+            assert (Htf : v_tokens_factory var = None)
+              by (destruct (wf_elem_nil var Hwe Hnl) as [[t [_ [_ [_ H]]]]|[k [_ [_ H]]]]; exact H).
             assert (Hfa0 : v_factory var = None).
             { pose proof (Hfe _ var Hine (or_introl eq_refl)) as Hfv.
               destruct Hsrc as [Hw|[f1 [t1 [l1 [Hf1 [_ [_ [El Hil]]]]]]]]; cbn [fst snd] in *.
@@ -1458,7 +1471,6 @@ Section Gen.
           unfold g_items. rewrite Hkt.
           destruct Hty as [[k [Htys [Hcl Htf]]]|Hty2].
           + (* class typed *)
-            pose proof (wf_elem_nonil_class var k Hwe Htys) as Hn.
             rewrite Htf.
             assert (Hobj : forall y, (odepth y <= odepth x)%nat -> fits_item (fits n) var y = true ->
                      forall f', (5 * odepth y + 2 <= f')%nat ->
@@ -1466,7 +1478,7 @@ Section Gen.
             { intros y Hdy Hfy f' Hf'. destruct (fits_item_class _ var k y Htys Hfy) as [cl' [fs' [-> [[-> Hr]|[Hdok Hr]]]]].
               - (* an instance of the declared class *)
                 destruct f' as [|f1]; [lia|]. rewrite run_anytype_obj.
-                destruct f1 as [|f2]; [lia|]. rewrite (run_xsitype_exact f2 var k fs' Hk Htys Hn).
+                destruct f1 as [|f2]; [lia|]. rewrite (run_xsitype_exact f2 var k fs' Hk Htys).
                 cbn [g_item]. unfold xsi_for. rewrite Htys. cbn [existsb ptype_eqb]. rewrite N.eqb_refl. cbn [orb].
                 apply (IH k (VObj k fs') (Some (v_qname var)) None); [|exact Hr|lia].
                 apply (Hnest _ var k Hine (or_introl eq_refl) Hcl).
@@ -1475,7 +1487,7 @@ Section Gen.
                 assert (Hmk' : u_meta u cl' <> None) by congruence.
                 destruct f' as [|f1]; [lia|]. rewrite run_anytype_obj.
                 destruct f1 as [|f2]; [lia|].
-                rewrite (run_xsitype_derived f2 var k cl' fs' Hk Htys Hcl Hn Hne Hsub Hmk').
+                rewrite (run_xsitype_derived f2 var k cl' fs' Hk Htys Hcl Hne Hsub Hmk').
                 cbn [g_item]. apply (IH cl' (VObj cl' fs') (Some (v_qname var)) (xsi_for var cl')); [|exact Hr|lia].
                 apply (wfr_sub cl m _ var k cl' Hwf Hm Hine (or_introl eq_refl) Hcl Hmk' Hne Hsub). }
             destruct Hsrc as [Hw|[f0 [t0 [l0 [Hf0 [_ [_ [El Hil]]]]]]]]; cbn [fst snd] in *.
@@ -1598,9 +1610,10 @@ Section Gen.
             * unfold qleaf_ok in Hft. apply andb_true_iff in Hft as [_ Hq]. destruct p as [| | | | | |q1| |]; try discriminate Hq.
               reflexivity.
             * apply andb_true_iff in Hft as [Hp _]. rewrite (encode_leaf t _ p Hp). reflexivity. }
-    cbn [gbind add_xsi_g bflat app]. f_equal. f_equal. f_equal.
-    - rewrite map_app. f_equal; [symmetry; apply map_flat_map_l|].
-      destruct xsi as [[|ch q]|]; reflexivity.
+    cbn [gbind add_xsi_g add_nil_g bflat app]. f_equal. f_equal. f_equal.
+    - rewrite !map_app. rewrite <- app_assoc. f_equal; [symmetry; apply map_flat_map_l|]. f_equal.
+      + destruct xsi as [[|ch q]|]; reflexivity.
+      + destruct (nl || m_nillable m); reflexivity.
     - f_equal. rewrite flat_map_flat_map. reflexivity.
   Qed.
   (* ---------------------------------------------------------------- the expected tree *)
